@@ -10,7 +10,7 @@
    Executable definitions only. *)
 From Coq Require Import ZArith NArith List Bool.
 Import ListNotations.
-From V Require Import Model.Val Model.XmlTree Model.SerExs.
+From V Require Import Model.Val Model.XmlTree Gen.ExsConsts Model.SerExs.
 Open Scope N_scope.
 
 (* ---- references ---- *)
@@ -157,6 +157,17 @@ Fixpoint read_nodes (fuel : nat) (s : str) (stack : list frame) : option (relem 
   end.
 Definition read_elem (s : str) : option (relem * str) := read_nodes (S (List.length s)) s [].
 
+(* what the reader returns for a written attribute-only tree: values decoded, the [expanded]
+   flag reduced to "written with a separate end tag and no children" *)
+Definition dec_val (w : str) : str := match unescape w with Some v => v | None => w end.
+Fixpoint decode_tree (r : relem) : relem :=
+  let 'RElem t a e _ ch _ := r in
+  RElem t (map (fun nv => (fst nv, dec_val (snd nv))) a) (e && is_nil ch) None (map decode_tree ch) None.
+(* escape the attribute values again (what phase 1 of the writer does with parsed values) *)
+Fixpoint reescape (r : relem) : relem :=
+  let 'RElem t a e tx ch tl := r in
+  RElem t (map (fun nv => (fst nv, escape TEXT_CLASS (snd nv))) a) e tx (map reescape ch) tl.
+
 (* val wrappers *)
 Definition w_unescape (v : val) : val :=
   match v with VS s => match unescape s with Some o => VS o | None => VE E_ValueError end | _ => bad end.
@@ -167,5 +178,26 @@ Fixpoint val_of_relem (r : relem) : val :=
 Definition w_read (v : val) : val :=
   match v with
   | VS s => match read_elem s with Some (r, rest) => VL [val_of_relem r; VS rest] | None => VE E_ValueError end
+  | _ => bad
+  end.
+
+(* lxml's view of what was read: namespace declarations apart from the attributes (both in
+   document order); the expanded flag is not observable in lxml and is left out *)
+Fixpoint starts_with (p s : str) : bool :=
+  match p, s with
+  | [], _ => true
+  | x :: p', y :: s' => (x =? y) && starts_with p' s'
+  | _ :: _, [] => false
+  end.
+Fixpoint sem_of_relem (r : relem) : val :=
+  let 'RElem t a ex tx ch tl := r in
+  VL [VS t;
+      pairs_val (filter (fun nv => starts_with XMLNS_PREFIX (fst nv)) a);
+      pairs_val (filter (fun nv => negb (starts_with XMLNS_PREFIX (fst nv))) a);
+      VL ((fix go (l : list relem) : list val := match l with [] => [] | c :: r => sem_of_relem c :: go r end) ch)].
+(* input: the bytes of one element as written (ASCII or already decoded code points) *)
+Definition w_read_sem (v : val) : val :=
+  match v with
+  | VS s => match read_elem s with Some (r, rest) => VL [sem_of_relem r; VS rest] | None => VE E_ValueError end
   | _ => bad
   end.
